@@ -19,7 +19,7 @@ def redir_spec(idx, kind):
     raise ValueError(kind)
 
 
-def mk_scenario(sid, cfg, fault=None, exec_fail=False, stubcfg="exit 0", mask=None, sigpipe=None, after="wait"):
+def mk_scenario(sid, cfg, fault=None, exec_fail=False, stubcfg="exit 0", mask=None, sigpipe=None, after="wait", in_thread=False):
     spec = ["kind create"]
     argv0 = "/nonexistent-dir/prog" if exec_fail else "STUB"
     spec.append("argv %s,%s" % (argv0 if argv0 == "STUB" else e2.hexs(argv0), e2.hexs("x")))
@@ -41,6 +41,8 @@ def mk_scenario(sid, cfg, fault=None, exec_fail=False, stubcfg="exit 0", mask=No
         spec.append("mask %s" % mask)
     if sigpipe:
         spec.append("sigpipe %s" % sigpipe)
+    if in_thread:
+        spec.append("in_thread 1")
     spec.append("stubcfg %s" % stubcfg)
     spec.append("after %s" % after)
     files = {"in0.txt": b"input-file\n", "shared0.txt": b"", "shared1.txt": b"", "shared2.txt": b""}
@@ -290,6 +292,12 @@ def scenarios_for(pid, tier, r):
         for c in cfgs:
             scns.append(mk_scenario("c05-%d" % n, c))
             n += 1
+        # the same from a short-lived thread: whatever the launch cached per thread is gone afterwards, the
+        # parent's own streams must still be there
+        for c in cfgs:
+            if "merge" in (c["stdout"], c["stderr"]) or tier == "thorough":
+                scns.append(mk_scenario("c05-%d" % n, c, in_thread=True))
+                n += 1
         if tier == "thorough":
             for c in cfgs[::3]:
                 cc = dict(c, setpgid=True)
